@@ -2,7 +2,7 @@ from __future__ import annotations
 from collections.abc import Callable
 from dataclasses import replace as dataclass_replace
 from enum import Enum
-from threading import Thread, Lock, Event, Timer
+from threading import Thread, Lock, Event, Timer, local
 from typing import Union, cast
 import logging
 import math
@@ -123,6 +123,9 @@ class Router:
         self._cbf_lock: Lock = Lock()
         # (GNAddress, int) → threading.Timer
         self._cbf_buffer: dict = {}
+        # Secured message (octets behind the Basic Header) of the packet being processed by this thread, if it
+        # was received secured; forwarders re-emit it unchanged (see _forward_pdu)
+        self._rx_context = local()
         if self.mib.itsGnBeaconServiceRetransmitTimer > 0:
             self.configure_beacon_service()
 
@@ -556,6 +559,31 @@ class Router:
         old_timer.cancel()
         return True
 
+    def _forward_pdu(
+        self,
+        basic_header: BasicHeader,
+        common_header: CommonHeader,
+        extended_header: bytes,
+        payload: bytes,
+    ) -> bytes:
+        """
+        GN-PDU a forwarder passes to the link layer.
+
+        A packet that was received secured (Basic Header NH = Secured Packet) is forwarded with its
+        security envelope: the Basic Header carries LT and RHL outside the signed part precisely so
+        that a forwarder can update them, everything behind it is re-emitted as received. Otherwise
+        the PDU is re-assembled from the (updated) headers.
+        """
+        secured_message = getattr(self._rx_context, "secured_message", None)
+        if secured_message is not None:
+            return basic_header.set_nh(BasicNH.SECURED_PACKET).encode_to_bytes() + secured_message
+        return (
+            basic_header.encode_to_bytes()
+            + common_header.encode_to_bytes()
+            + extended_header
+            + payload
+        )
+
     def gn_area_cbf_forwarding(
         self,
         basic_header: BasicHeader,
@@ -604,12 +632,8 @@ class Router:
             else:
                 # §F.3: use TO_CBF_MAX when sender position unavailable
                 timeout_ms = float(self.mib.itsGnCbfMaxTime)
-            full_packet = (
-                basic_header.encode_to_bytes()
-                + common_header.encode_to_bytes()
-                + gbc_extended_header.encode()
-                + packet
-            )
+            full_packet = self._forward_pdu(
+                basic_header, common_header, gbc_extended_header.encode(), packet)
             timer = Timer(
                 timeout_ms / 1000.0,
                 self._cbf_timeout,
@@ -720,12 +744,8 @@ class Router:
                         basic_header, common_header, gbc_extended_header, packet)
                     return GNDataConfirm(result_code=ResultCode.ACCEPTED)
                 # §F.2 / UNSPECIFIED: simple re-broadcast (BCAST) immediately
-                final_packet: bytes = (
-                    basic_header.encode_to_bytes()
-                    + common_header.encode_to_bytes()
-                    + gbc_extended_header.encode()
-                    + packet
-                )
+                final_packet: bytes = self._forward_pdu(
+                    basic_header, common_header, gbc_extended_header.encode(), packet)
                 try:
                     if self.link_layer:
                         self.link_layer.send(final_packet)
@@ -737,12 +757,8 @@ class Router:
             elif algorithm == GNForwardingAlgorithmResponse.NON_AREA_FORWARDING:
                 # §E.2: Greedy Forwarding towards area centre (ego outside area)
                 if self.gn_greedy_forwarding(area.latitude, area.longitude, common_header.tc):
-                    naf_packet: bytes = (
-                        basic_header.encode_to_bytes()
-                        + common_header.encode_to_bytes()
-                        + gbc_extended_header.encode()
-                        + packet
-                    )
+                    naf_packet: bytes = self._forward_pdu(
+                        basic_header, common_header, gbc_extended_header.encode(), packet)
                     try:
                         if self.link_layer:
                             self.link_layer.send(naf_packet)
@@ -753,12 +769,8 @@ class Router:
                         return GNDataConfirm(result_code=ResultCode.UNSPECIFIED)
 
         else:
-            final_packet: bytes = (
-                basic_header.encode_to_bytes()
-                + common_header.encode_to_bytes()
-                + gbc_extended_header.encode()
-                + packet
-            )
+            final_packet: bytes = self._forward_pdu(
+                basic_header, common_header, gbc_extended_header.encode(), packet)
             try:
                 if self.link_layer:
                     self.link_layer.send(final_packet)
@@ -1130,12 +1142,8 @@ class Router:
                         common_header.tc,
                     ):
                         # Steps 14-15: media-dependent procedures + pass to LL
-                        forward_packet = (
-                            updated_basic_header.encode_to_bytes()
-                            + common_header.encode_to_bytes()
-                            + guc_extended_header.encode()
-                            + packet
-                        )
+                        forward_packet = self._forward_pdu(
+                            updated_basic_header, common_header, guc_extended_header.encode(), packet)
                         try:
                             if self.link_layer:
                                 self.link_layer.send(forward_packet)
@@ -1249,12 +1257,8 @@ class Router:
                 return None
             # Steps 11-13: §E.2 Greedy Forwarding (NON_AREA) → media-dependent → LL
             if self.gn_greedy_forwarding(area.latitude, area.longitude, common_header.tc):
-                forward_packet = (
-                    updated_basic_header.encode_to_bytes()
-                    + common_header.encode_to_bytes()
-                    + gbc_extended_header.encode()
-                    + packet
-                )
+                forward_packet = self._forward_pdu(
+                    updated_basic_header, common_header, gbc_extended_header.encode(), packet)
                 try:
                     if self.link_layer:
                         self.link_layer.send(forward_packet)
@@ -1479,12 +1483,8 @@ class Router:
                 new_rhl = basic_header.rhl - 1
                 if new_rhl > 0:
                     updated_basic_header = basic_header.set_rhl(new_rhl)
-                    forward_packet = (
-                        updated_basic_header.encode_to_bytes()
-                        + common_header.encode_to_bytes()
-                        + ls_request_header.encode()
-                        + payload
-                    )
+                    forward_packet = self._forward_pdu(
+                        updated_basic_header, common_header, ls_request_header.encode(), payload)
                     try:
                         if self.link_layer:
                             self.link_layer.send(forward_packet)
@@ -1575,12 +1575,8 @@ class Router:
                 new_rhl = basic_header.rhl - 1
                 if new_rhl > 0:
                     updated_basic_header = basic_header.set_rhl(new_rhl)
-                    forward_packet = (
-                        updated_basic_header.encode_to_bytes()
-                        + common_header.encode_to_bytes()
-                        + ls_reply_header.encode()
-                        + payload
-                    )
+                    forward_packet = self._forward_pdu(
+                        updated_basic_header, common_header, ls_reply_header.encode(), payload)
                     try:
                         if self.link_layer:
                             self.link_layer.send(forward_packet)
@@ -1778,12 +1774,8 @@ class Router:
                         "TSB: no neighbours and SCF set; BC forwarding buffer not yet implemented")
                 else:
                     # Steps 11-12: execute media-dependent procedures and pass to LL
-                    forward_packet = (
-                        updated_basic_header.encode_to_bytes()
-                        + common_header.encode_to_bytes()
-                        + tsb_extended_header.encode()
-                        + packet
-                    )
+                    forward_packet = self._forward_pdu(
+                        updated_basic_header, common_header, tsb_extended_header.encode(), packet)
                     try:
                         if self.link_layer:
                             self.link_layer.send(forward_packet)
@@ -1916,8 +1908,13 @@ class Router:
         #    reconstruction or recursive calls.
         #    plain_message layout: Common Header (8 bytes) | Extended Header + payload
         processed_packet = verify_confirm.plain_message
-        self.process_common_header(
-            processed_packet, basic_header.set_nh(BasicNH.COMMON_HEADER))
+        # Forwarders re-emit the secured message as received (only the Basic Header changes).
+        self._rx_context.secured_message = packet
+        try:
+            self.process_common_header(
+                processed_packet, basic_header.set_nh(BasicNH.COMMON_HEADER))
+        finally:
+            self._rx_context.secured_message = None
 
     def gn_data_indicate(self, packet: bytes) -> None:
         # pylint: disable=no-else-raise, too-many-branches
